@@ -30,6 +30,9 @@ CLAIMED = {
  "C08": ("exhaustive pairs of library custom-operation parameterisations + proptest-generated mixed contexts; oracle = per-node single-operation instantiation",
          "Every unordered pair from a catalogue of 67 parameterised library custom operations on equal argument types (exhaustive), and generated contexts of 1-3 graphs mixing all library custom ops with nesting through harness-defined wrapper ops: run_instantiation_pass must succeed whenever every custom_op call type-checked, must leave no Custom node, and every node must equal the per-node definition (the same operation instantiated alone on the same argument types).",
          "Trusted: a custom operation instantiated alone in a one-node context defines its function (approximate ops are compared with themselves). Five name-collision defects found here were repaired (fix: commit bacbce4)."),
+ "C09": ("proptest-generated graphs over all primitive operations with fitting and near-miss parameters; oracles: no panic, check_type + strict decode of every node value, independent shape-rule model, must-reject table, runtime-error white-list",
+         "Random search with shrinking over graphs of all primitive operations (55 step kinds incl. Gather, CuckooHash, SegmentCumSum, Shard*, Join*, Print/Assert, randomness, Call/Iterate sub-graphs) with parameters from the fitting range and just outside it, plus huge-dimension builder-only cases. Every builder call returns Ok/Err without panicking; documented misfits must be rejected at add_node; the inferred type equals an independent NumPy-style model of the documented shape rules; a node-by-node walker and the stock evaluator both run: every node value satisfies check_type and the strict harness decoder; evaluation ends in Ok or a white-listed data-dependent runtime error, never a panic or a type-related error.",
+         "Trusted: the harness shape-rule model and must-reject table (written from the docs); the runtime-error white-list. Shard operations being unevaluable is a recorded known finding; seven panics/late rejections found here were repaired (fix: commits 88c9908..f5250a4)."),
  "C10": ("proptest-generated one-operation graphs vs an independent reference interpreter (refsem.rs) written from the documentation",
          "Random search with shrinking over one-operation graphs: every primitive operation named by the property x all 11 scalar types x shapes up to rank 4 with size-1 broadcasting x all parameters x extreme values; inferred type and every element compared with refsem (nested-loop NumPy-style modular semantics written from the Graph doc comments). 386 (operation, scalar type) cells, each with >1000 cases in the quick tier.",
          "Trusted: the reference interpreter; three conventions absent from the docs are stated as assumptions (signed Truncate rounds toward zero, A2B bit 0 is least significant, ApplyPermutation(a,p)[i]=a[p[i]]). The 128-bit truncation defect of structural ops was repaired (fix: commit 541780f)."),
@@ -55,8 +58,12 @@ CLAIMED = {
          "Random search with shrinking over (scalar type x source integer type x boundary-heavy integers x ragged bit arrays x nested container types): read-back == integers mod 2^w with sign extension, bytes == the harness's own little-endian/LSB-first encoder, check_type <=> independent layout predicate (matching and near-miss layouts), JSON text parses back to an equal typed value. Sampling, not proof.",
          "Trusted: the harness's reference encoder/decoder (hv.rs) and layout predicate; serde_json itself. Two JSON format limitations are recorded as known findings and excluded by signature."),
 }
+CLAIMED_EXTRA = {"C19": ("proptest-generated table pairs vs an independent reference join written from the documentation; compiled join vs plaintext (global evaluator) and three-party execution",
+         "Random search with shrinking plus a fixed grid: pairs of tables (null rows anywhere, 1-3 key columns of differing types/shapes, renamed key headers, payload columns, overlap patterns, masked variant with masked key entries) x 4 join types: result type (column order, row count), null column, masks, data and zero filling equal to refjoin; compiled join equals plaintext under 2 seeds (documented cuckoo abort tolerated and counted); three-party execution gives every listed party the plaintext table / consistent shares.",
+         "Trusted: refjoin (harness reading of the Graph::join docs); execution model of runtime.md. Six defects found here were repaired (fix: commits c5d7fe6, f2e4c09, 316a69d, 7e82556, 810c9d0, 581807a).")}
 NOT_YET = "check not implemented yet in this round (planned in DESIGN.md section 3)"
 
+CLAIMED.update(CLAIMED_EXTRA)
 checks = []
 for i in ids:
     if i in CLAIMED:
